@@ -110,7 +110,24 @@ func VerifFail(tag string) { VerifAssert(false, tag) }
 func VerifReach(tag string) { VerifReached[tag]++ }
 
 // VerifYield lets other goroutines run (executor: until they block; native: scheduler hint).
-func VerifYield() { time.Sleep(30 * time.Millisecond) }
+func VerifYield() {
+	// native: wait until the other goroutines have gone quiet (goroutine count stable), at least
+	// 30 ms and at most 3 s
+	start := time.Now()
+	last, stable := runtime.NumGoroutine(), 0
+	for time.Since(start) < 3*time.Second {
+		time.Sleep(5 * time.Millisecond)
+		n := runtime.NumGoroutine()
+		if n == last {
+			stable++
+		} else {
+			last, stable = n, 0
+		}
+		if stable >= 8 && time.Since(start) >= 30*time.Millisecond {
+			return
+		}
+	}
+}
 
 // VerifSymbolic reports whether the code runs inside the symbolic executor.
 func VerifSymbolic() bool { return false }
